@@ -30,7 +30,17 @@ def native_dir():
     return d
 
 
+import threading
+_build_lock = threading.Lock()
+
+
 def build(name, sources, extra=(), compiler='g++'):
+    # several native groups of one check run in parallel threads and share the replayer binaries: build each one once
+    with _build_lock:
+        return _build_locked(name, sources, extra, compiler)
+
+
+def _build_locked(name, sources, extra=(), compiler='g++'):
     if name in _built:
         return _built[name]
     exe = os.path.join(native_dir(), name)
